@@ -25,6 +25,18 @@ theorem fn_expected_empty_agree (v : Value) : Gen.EvalexprError.expected_empty v
 theorem fn_wrong_type_combination_agree (op : Operator) (ts : List ValueType) :
     Gen.EvalexprError.wrong_type_combination op ts = .wrongTypeCombination op ts := rfl
 
+theorem fn_addition_error_agree (a b : Value) : Gen.EvalexprError.addition_error a b = .additionError a b := rfl
+theorem fn_subtraction_error_agree (a b : Value) : Gen.EvalexprError.subtraction_error a b = .subtractionError a b := rfl
+theorem fn_negation_error_agree (a : Value) : Gen.EvalexprError.negation_error a = .negationError a := rfl
+theorem fn_multiplication_error_agree (a b : Value) :
+    Gen.EvalexprError.multiplication_error a b = .multiplicationError a b := rfl
+theorem fn_division_error_agree (a b : Value) : Gen.EvalexprError.division_error a b = .divisionError a b := rfl
+theorem fn_modulation_error_agree (a b : Value) : Gen.EvalexprError.modulation_error a b = .modulationError a b := rfl
+
+/-- `EvalexprError::expected_type` -/
+theorem fn_expected_type_agree (expected actual : Value) :
+    Gen.EvalexprError.expected_type expected actual = Err.expectedType expected actual := by cases expected <;> rfl
+
 /-! ### `expect_*` -/
 
 /-- `expect_operator_argument_amount`: the Model inlines this check as a match on the shape of the
